@@ -200,7 +200,7 @@ fn decode(src: &mut Source) -> Case {
     Case { installers, emitters: (0..ne).map(|_| 1 + src.below(3)).collect() }
 }
 
-fn case_sched(bytes: &[u8], sched_bytes: &[u8], ctx: &mut Ctx) -> Result<(), Fail> {
+pub fn case_sched(bytes: &[u8], sched_bytes: &[u8], ctx: &mut Ctx) -> Result<(), Fail> {
     let mut src = Source::new(bytes);
     let case = decode(&mut src);
     ctx.case(&(&case, sched_bytes));
@@ -212,7 +212,7 @@ fn scenario() -> Case {
     Case { installers: 2, emitters: vec![2] }
 }
 
-fn case_exhaustive_replay(bytes: &[u8], _s: &[u8], ctx: &mut Ctx) -> Result<(), Fail> {
+pub fn case_exhaustive_replay(bytes: &[u8], _s: &[u8], ctx: &mut Ctx) -> Result<(), Fail> {
     let sch: Vec<(u64, usize)> = bytes.chunks(2).filter(|c| c.len() == 2).map(|c| (c[0] as u64, c[1] as usize)).collect();
     let case = scenario();
     ctx.case(&(&case, &sch));
